@@ -117,6 +117,9 @@ fn main() {
                     "protocol_storm" => live::protocol_storm((rounds / 4).max(10), seed),
                     "ttl_mix" => live::ttl_mix(rounds * 1500),
                     "workers_exit" => live::workers_exit((rounds / 10).max(6)),
+                    "async_barrier" => live::async_barrier(rounds),
+                    "remove_full" => live::remove_full((rounds / 10).max(10), false),
+                    "async_remove_full" => live::remove_full((rounds / 10).max(10), true),
                     _ => return,
                 };
                 out.line(&r.line());
